@@ -85,8 +85,8 @@ CHECKS.update({
  'C02': dict(
    technique='harness-enforced step contracts (CBMC): wire-format obligations as preconditions of the Device::send stub, completion verdict as precondition of BusRequest::notify',
    level='proof',
-   text='In every state of an own transfer the symbol handed to Device::send is proved to be the next escaped master byte / the escaped CRC of the echoed bytes / ACK iff the response CRC is right else NAK / the final SYN; the request is completed with OK iff the recogniser accepted the exchange in that step, carrying the bytes seen on the bus; inductive over steps as for C01.',
-   note=TB + 'B2 back end; sendAndWait retry loop and addRequest(wait) blocking are not under contract in this revision; requests are assumed well-formed (complete, master source, not self-addressed).',
+   text='In every state of an own transfer the symbol handed to Device::send is proved to be the next escaped master byte / the escaped CRC of the echoed bytes / ACK iff the response CRC is right else NAK / the final SYN; the request is completed with OK iff the recogniser accepted the exchange in that step, carrying the bytes seen on the bus; inductive over steps as for C01. ProtocolHandler::sendAndWait (unit sendwait): submits at least once and at most 1 + failedSendRetries times, repeats only after a failed exchange worth repeating (not after success / no signal / send / device errors), resets the bus-lost retry counter for every new attempt and returns the result of the last exchange.',
+   note=TB + 'B2 back end; addRequest(wait) / Queue blocking and the bus thread are an environment stub of sendAndWait (each submission is completed once with an arbitrary result); requests are assumed well-formed (complete, master source, not self-addressed).',
    ref='DESIGN.md 5 (C02)'),
  'C03': dict(
    technique='harness-enforced step contracts (CBMC): entitlement as precondition of the Device::send / Device::startArbitration stubs, discharged at every call site under the handler invariant',
